@@ -105,3 +105,378 @@ Proof.
   - change (desc_text sep_text (it :: it2 :: d')) with (sitem_text sep_text it ++ [44; 32]%N ++ desc_text sep_text (it2 :: d')).
     rewrite pre_sitem, pre_comma, IH. reflexivity.
 Qed.
+
+(* ---------- step 2: the tokenizer model on texts made of decimal digits, '-', ':', ',' and blanks *)
+Inductive stok := TNum (ds : text) | TOp (c : N) | TBlank.
+Definition stok_text (t : stok) : text := match t with TNum ds => ds | TOp c => [c] | TBlank => [32%N] end.
+Definition stok_token (t : stok) : list token := match t with TNum ds => [T KNumber ds] | TOp c => [T KOp [c]] | TBlank => [] end.
+Definition stoks_text (l : list stok) : text := flat_map stok_text l.
+Definition stoks_tokens (l : list stok) : list token := flat_map stok_token l.
+Definition is_our_op (c : N) : bool := N.eqb c 45 || N.eqb c 58 || N.eqb c 44.
+Definition stok_ok (t : stok) : bool :=
+  match t with TNum ds => negb (is_nil_t ds) && forallb is_digit ds | TOp c => is_our_op c | TBlank => true end.
+(* two numbers never touch *)
+Fixpoint stoks_ok (l : list stok) : bool :=
+  match l with
+  | [] => true
+  | t :: rest => stok_ok t && (match t, rest with TNum _, TNum _ :: _ => false | _, _ => true end) && stoks_ok rest
+  end.
+Definition benign (c : N) : bool := is_digit c || is_our_op c || N.eqb c 32.
+Definition stop_char (c : N) : bool := is_our_op c || N.eqb c 32.
+
+Lemma stoks_text_benign l : stoks_ok l = true -> forallb benign (stoks_text l) = true.
+Proof.
+  induction l as [|t l IH]; intros H; [reflexivity|]. cbn [stoks_ok] in H. apply andb_true_iff in H as [H Hl]. apply andb_true_iff in H as [Ht _].
+  unfold stoks_text. cbn [flat_map]. rewrite forallb_app. fold (stoks_text l). rewrite (IH Hl), andb_true_r.
+  destruct t as [ds|c|]; cbn [stok_text stok_ok] in *.
+  - apply andb_true_iff in Ht as [_ Hd]. apply forallb_forall. intros c Hc. rewrite forallb_forall in Hd. unfold benign. rewrite (Hd c Hc). reflexivity.
+  - cbn [forallb]. unfold benign. rewrite Ht. rewrite orb_true_r. reflexivity.
+  - reflexivity.
+Qed.
+
+Lemma dtail_digits ds : forall rest, forallb is_digit ds = true -> match rest with c :: _ => stop_char c = true | [] => True end ->
+  dtail is_digit (ds ++ rest) = NOk ds rest.
+Proof.
+  induction ds as [|d ds IH]; intros rest Hd Hr; cbn [app].
+  - destruct rest as [|c r]; [reflexivity|]. cbn [dtail].
+    assert (is_digit c = false /\ N.eqb c US = false) as [-> ->].
+    { unfold stop_char, is_our_op, is_digit, in_rng, US in *. lia. }
+    reflexivity.
+  - cbn [forallb] in Hd. apply andb_true_iff in Hd as [H1 H2]. cbn [dtail]. rewrite H1. rewrite (IH rest H2 Hr). reflexivity.
+Qed.
+
+Lemma scan_number_digits ds rest : ds <> [] -> forallb is_digit ds = true ->
+  match rest with c :: _ => stop_char c = true | [] => True end -> scan_number (ds ++ rest) = NOk ds rest.
+Proof.
+  intros Hne Hd Hr.
+  assert (forall c r, rest = c :: r -> N.eqb c DOT = false /\ exp_imag rest = NOk [] rest) as Tail.
+  { intros c r ->. assert (stop_char c = true) as Hs by exact Hr.
+    assert (N.eqb c DOT = false /\ N.eqb c 101 = false /\ N.eqb c 69 = false /\ N.eqb c 106 = false /\ N.eqb c 74 = false) as [A [B [C0 [D E]]]].
+    { unfold stop_char, is_our_op, DOT in *. lia. }
+    split; [exact A|]. unfold exp_imag, exponent. rewrite B, C0. cbn [orb]. unfold imaginary. rewrite D, E. reflexivity. }
+  assert (forall s, s = ds ++ rest ->
+          match dtail is_digit s with
+          | NOk a b => match b with
+                       | c :: b' => if N.eqb c DOT then match fraction_tail b' with NOk f b2 => napp (a ++ DOT :: f) (exp_imag b2) | NErr => NErr end
+                                    else napp a (exp_imag b)
+                       | [] => NOk a [] end
+          | NErr => NErr end = NOk ds rest) as Main.
+  { intros s ->. rewrite (dtail_digits ds rest Hd Hr). destruct rest as [|c r]; [reflexivity|].
+    destruct (Tail c r eq_refl) as [-> ->]. cbn [napp]. rewrite app_nil_r. reflexivity. }
+  destruct ds as [|z ds']; [congruence|]. cbn [forallb] in Hd. apply andb_true_iff in Hd as [Hz Hds].
+  assert (forall x, (is_digit x = true \/ stop_char x = true) ->
+          (N.eqb x 120 || N.eqb x 88 = false) /\ (N.eqb x 111 || N.eqb x 79 = false) /\ (N.eqb x 98 || N.eqb x 66 = false)) as NoRadix.
+  { intros x [H|H]; unfold is_digit, in_rng, stop_char, is_our_op in H; lia. }
+  unfold scan_number. destruct (ds' ++ rest) as [|x r] eqn:E.
+  - (* a single digit at the very end *)
+    destruct ds'; [|discriminate]. cbn [app] in E. subst rest. cbn [app].
+    cbn [dtail]. rewrite Hz. cbn [dtail ncons napp exp_imag exponent imaginary app]. reflexivity.
+  - cbn [app]. rewrite E.
+    assert (is_digit x = true \/ stop_char x = true) as Hx.
+    { destruct ds' as [|d ds'']; cbn [app] in E.
+      - subst rest. right. exact Hr.
+      - injection E as <- _. cbn [forallb] in Hds. apply andb_true_iff in Hds as [H _]. left. exact H. }
+    destruct (NoRadix x Hx) as [R1 [R2 R3]]. rewrite R1, R2, R3, !andb_false_r.
+    specialize (Main (z :: x :: r)). rewrite <- E in Main. cbn [app] in Main. rewrite E in Main.
+    apply Main. cbn [forallb]. reflexivity.
+Qed.
+
+Lemma scan_op_ours c rest : is_our_op c = true -> forallb benign rest = true -> scan_op (c :: rest) = ([c], rest).
+Proof.
+  intros Hc Hr.
+  assert (forall b, benign b = true -> N.eqb b 62 = false /\ N.eqb b 61 = false) as B.
+  { intros b Hb. unfold benign, is_digit, in_rng, is_our_op in Hb. lia. }
+  unfold is_our_op in Hc.
+  assert (c = 45 \/ c = 58 \/ c = 44)%N as Hcases by lia.
+  destruct rest as [|b [|b2 r]]; cbn [scan_op].
+  - reflexivity.
+  - cbn [forallb] in Hr. apply andb_true_iff in Hr as [Hb _]. destruct (B b Hb) as [B1 B2].
+    destruct Hcases as [-> | [-> | ->]]; unfold ops2; cbn [map existsb text_eqb txt]; cbn; rewrite ?B1, ?B2; cbn;
+      repeat (match goal with |- context [N.eqb ?x ?y] => destruct (N.eqb x y) end; cbn); reflexivity.
+  - cbn [forallb] in Hr. apply andb_true_iff in Hr as [Hb Hr]. destruct (B b Hb) as [B1 B2].
+    destruct Hcases as [-> | [-> | ->]]; unfold ops3, ops2; cbn; rewrite ?B1, ?B2; cbn;
+      repeat (match goal with |- context [N.eqb ?x ?y] => destruct (N.eqb x y) end; cbn); reflexivity.
+Qed.
+
+Lemma digit_class d : is_digit d = true ->
+  in_domain_char d = true /\ is_blank d = false /\ N.eqb d HASH = false /\ N.eqb d BSL = false /\ is_name_start d = false.
+Proof. unfold is_digit, in_domain_char, is_blank, HASH, BSL, is_name_start, is_alpha, in_rng. intros H. repeat split; lia. Qed.
+Lemma op_class c : is_our_op c = true ->
+  in_domain_char c = true /\ is_blank c = false /\ N.eqb c HASH = false /\ N.eqb c BSL = false /\ is_name_start c = false
+  /\ is_digit c = false /\ N.eqb c DOT = false /\ is_quote c = false /\ is_op_char c = true
+  /\ (N.eqb c 40 || N.eqb c 91 || N.eqb c 123 = false) /\ (N.eqb c 41 || N.eqb c 93 || N.eqb c 125 = false).
+Proof.
+  unfold is_our_op. intros H. assert (c = 45 \/ c = 58 \/ c = 44)%N as [-> | [-> | ->]] by lia; repeat split; reflexivity.
+Qed.
+
+Lemma stoks_text_stop t rest : stoks_ok (t :: rest) = true -> (exists ds, t = TNum ds) ->
+  match stoks_text rest with c :: _ => stop_char c = true | [] => True end.
+Proof.
+  intros H [ds ->]. cbn [stoks_ok] in H. apply andb_true_iff in H as [H Hr]. apply andb_true_iff in H as [_ Hn].
+  destruct rest as [|t2 rest2]; [exact I|]. destruct t2 as [ds2|c|]; [discriminate| |].
+  - cbn [stoks_ok] in Hr. apply andb_true_iff in Hr as [Hr _]. apply andb_true_iff in Hr as [Hc _]. cbn [stok_ok] in Hc.
+    unfold stoks_text. cbn. unfold stop_char. rewrite Hc. reflexivity.
+  - reflexivity.
+Qed.
+
+Theorem lex_stoks l : forall fuel, stoks_ok l = true -> (length (stoks_text l) < fuel)%nat ->
+  lex_loop fuel (stoks_text l) 0 = LOk (stoks_tokens l).
+Proof.
+  induction l as [|t l IH]; intros fuel Hok Hf; (destruct fuel as [|fuel]; [cbn in Hf; lia|]).
+  - reflexivity.
+  - pose proof Hok as Hok0. cbn [stoks_ok] in Hok. apply andb_true_iff in Hok as [Hok Hl]. apply andb_true_iff in Hok as [Ht _].
+    unfold stoks_text, stoks_tokens in *. cbn [flat_map] in *. fold (stoks_text l) in *. fold (stoks_tokens l).
+    rewrite app_length in Hf.
+    destruct t as [ds|c|]; cbn [stok_text stok_token stok_ok] in *.
+    + apply andb_true_iff in Ht as [Hne Hd]. destruct ds as [|d ds']; [discriminate|].
+      cbn [forallb] in Hd. apply andb_true_iff in Hd as [Hd1 Hd2].
+      destruct (digit_class d Hd1) as [C1 [C2 [C3 [C4 C5]]]].
+      cbn [app lex_loop]. rewrite C1, C2, C3, C4, C5, Hd1. cbn [negb].
+      change (d :: ds' ++ stoks_text l) with ((d :: ds') ++ stoks_text l).
+      rewrite (scan_number_digits (d :: ds') (stoks_text l)); [| discriminate | cbn [forallb]; rewrite Hd1; exact Hd2 | eapply stoks_text_stop; [exact Hok0|eexists; reflexivity]].
+      rewrite (IH fuel Hl) by (cbn [length] in Hf; lia). reflexivity.
+    + destruct (op_class c Ht) as [C1 [C2 [C3 [C4 [C5 [C6 [C7 [C8 [C9 [C10 C11]]]]]]]]]].
+      cbn [app lex_loop]. rewrite C1, C2, C3, C4, C5, C6, C7, C8, C9. cbn [negb andb].
+      rewrite (scan_op_ours c (stoks_text l) Ht (stoks_text_benign l Hl)). rewrite C10, C11.
+      rewrite (IH fuel Hl) by (cbn [length] in Hf; lia). reflexivity.
+    + cbn [app lex_loop]. change (in_domain_char 32) with true. change (is_blank 32) with true. cbn [negb].
+      apply IH; [exact Hl|cbn [length] in Hf; lia].
+Qed.
+
+(* ---------- step 3: the text of a description as surface tokens, and those as the grammar tokens of the token loop *)
+Definition int_stoks (v : Z) : list stok := if v <? 0 then [TOp 45; TNum (nat_text (- v))] else [TNum (nat_text v)].
+Definition sitem_stoks (it : sitem) : list stok :=
+  match it with
+  | SSingle v => int_stoks v
+  | SClosed a _ b => int_stoks a ++ TOp 58 :: int_stoks b
+  | SFrom a _ => int_stoks a ++ [TOp 58]
+  | SUpTo _ b => TOp 58 :: int_stoks b
+  end.
+Fixpoint desc_stoks (d : list sitem) : list stok :=
+  match d with
+  | [] => []
+  | [it] => sitem_stoks it
+  | it :: rest => sitem_stoks it ++ TOp 44 :: TBlank :: desc_stoks rest
+  end.
+
+Lemma stoks_text_app a b : stoks_text (a ++ b) = stoks_text a ++ stoks_text b.
+Proof. unfold stoks_text. apply flat_map_app. Qed.
+Lemma stoks_tokens_app a b : stoks_tokens (a ++ b) = stoks_tokens a ++ stoks_tokens b.
+Proof. unfold stoks_tokens. apply flat_map_app. Qed.
+Lemma int_stoks_text v : stoks_text (int_stoks v) = int_text v.
+Proof. unfold int_stoks, int_text. destruct (v <? 0); cbn; rewrite app_nil_r; reflexivity. Qed.
+Lemma stoks_text_cons t l : stoks_text (t :: l) = stok_text t ++ stoks_text l.
+Proof. reflexivity. Qed.
+Lemma sitem_stoks_text it : stoks_text (sitem_stoks it) = sitem_text colon it.
+Proof.
+  destruct it as [v|a k b|a k|k b]; cbn [sitem_stoks sitem_text colon].
+  - apply int_stoks_text.
+  - rewrite stoks_text_app, stoks_text_cons, !int_stoks_text. reflexivity.
+  - rewrite stoks_text_app, stoks_text_cons, int_stoks_text. reflexivity.
+  - rewrite stoks_text_cons, int_stoks_text. reflexivity.
+Qed.
+Lemma desc_stoks_text d : stoks_text (desc_stoks d) = desc_text colon d.
+Proof.
+  induction d as [|it d IH]; [reflexivity|]. destruct d as [|it2 d']; [apply sitem_stoks_text|].
+  change (desc_stoks (it :: it2 :: d')) with (sitem_stoks it ++ TOp 44 :: TBlank :: desc_stoks (it2 :: d')).
+  rewrite stoks_text_app, sitem_stoks_text, !stoks_text_cons. rewrite IH. reflexivity.
+Qed.
+
+(* well-formedness of the surface tokens: what a list ends / starts with *)
+Definition starts_num (l : list stok) : bool := match l with TNum _ :: _ => true | _ => false end.
+Fixpoint ends_num (l : list stok) : bool := match l with [] => false | [TNum _] => true | _ :: r => ends_num r end.
+Lemma stoks_ok_app a b : stoks_ok a = true -> stoks_ok b = true -> ends_num a && starts_num b = false -> stoks_ok (a ++ b) = true.
+Proof.
+  induction a as [|t a IH]; intros Ha Hb Hj; [exact Hb|]. cbn [app stoks_ok] in *.
+  apply andb_true_iff in Ha as [Ha Hra]. apply andb_true_iff in Ha as [Ht Hn]. rewrite Ht. cbn [andb].
+  destruct a as [|t2 a'].
+  - cbn [app]. rewrite Hb, andb_true_r. destruct t; try reflexivity. destruct b as [|[?|?|] ?]; try reflexivity. cbn in Hj. discriminate.
+  - assert (stoks_ok ((t2 :: a') ++ b) = true) as E by (apply IH; [exact Hra|exact Hb|destruct t; exact Hj]).
+    cbn [app] in *. rewrite E, andb_true_r. exact Hn.
+Qed.
+Lemma nat_text_ok n : 0 <= n -> stok_ok (TNum (nat_text n)) = true.
+Proof. intros H. destruct (nat_text_spec n H) as [D [_ [_ NE]]]. cbn [stok_ok]. rewrite D. destruct (nat_text n); [congruence|reflexivity]. Qed.
+Lemma int_stoks_ok v : stoks_ok (int_stoks v) = true /\ ends_num (int_stoks v) = true.
+Proof.
+  unfold int_stoks. destruct (v <? 0) eqn:E; cbn [stoks_ok ends_num].
+  - rewrite nat_text_ok by lia. split; reflexivity.
+  - rewrite nat_text_ok by lia. split; reflexivity.
+Qed.
+Lemma sitem_stoks_ok it : stoks_ok (sitem_stoks it) = true.
+Proof.
+  destruct it as [v|a k b|a k|k b]; cbn [sitem_stoks].
+  - apply int_stoks_ok.
+  - apply stoks_ok_app; [apply int_stoks_ok| |rewrite andb_false_r; reflexivity].
+    cbn [stoks_ok stok_ok]. change (is_our_op 58) with true. cbn [andb]. destruct (int_stoks_ok b) as [-> _].
+    destruct (int_stoks b) as [|[?|?|] ?]; reflexivity.
+  - apply stoks_ok_app; [apply int_stoks_ok|reflexivity|rewrite andb_false_r; reflexivity].
+  - cbn [stoks_ok stok_ok]. change (is_our_op 58) with true. cbn [andb]. destruct (int_stoks_ok b) as [-> _].
+    destruct (int_stoks b) as [|[?|?|] ?]; reflexivity.
+Qed.
+Lemma desc_stoks_ok d : stoks_ok (desc_stoks d) = true.
+Proof.
+  induction d as [|it d IH]; [reflexivity|]. destruct d as [|it2 d']; [apply sitem_stoks_ok|].
+  change (desc_stoks (it :: it2 :: d')) with (sitem_stoks it ++ TOp 44 :: TBlank :: desc_stoks (it2 :: d')).
+  apply stoks_ok_app; [apply sitem_stoks_ok| |rewrite andb_false_r; reflexivity].
+  cbn [stoks_ok stok_ok]. change (is_our_op 44) with true. cbn [andb]. exact IH.
+Qed.
+
+(* the grammar description (RangeParseProofs) a written description stands for *)
+Definition sep_tok : token := T KOp [58%N].
+Definition lim_of (v : Z) : lim := if v <? 0 then LMinus (T KNumber (nat_text (- v))) else LPlain (T KNumber (nat_text v)).
+Definition gi (it : sitem) : gitem :=
+  match it with
+  | SSingle v => GSingle (lim_of v)
+  | SClosed a _ b => GClosed (lim_of a) sep_tok (lim_of b)
+  | SFrom a _ => GFrom (lim_of a) sep_tok
+  | SUpTo _ b => GUpTo sep_tok (lim_of b)
+  end.
+Lemma stoks_tokens_cons t l : stoks_tokens (t :: l) = stok_token t ++ stoks_tokens l.
+Proof. reflexivity. Qed.
+Lemma int_stoks_tokens v : stoks_tokens (int_stoks v) = lim_tokens (lim_of v).
+Proof. unfold int_stoks, lim_of. destruct (v <? 0); reflexivity. Qed.
+Lemma sitem_stoks_tokens it : stoks_tokens (sitem_stoks it) = gitem_tokens (gi it).
+Proof.
+  destruct it as [v|a k b|a k|k b]; cbn [sitem_stoks gi gitem_tokens].
+  - apply int_stoks_tokens.
+  - rewrite stoks_tokens_app, stoks_tokens_cons, !int_stoks_tokens. reflexivity.
+  - rewrite stoks_tokens_app, stoks_tokens_cons, int_stoks_tokens. reflexivity.
+  - rewrite stoks_tokens_cons, int_stoks_tokens. reflexivity.
+Qed.
+Lemma desc_stoks_tokens d : d <> [] -> stoks_tokens (desc_stoks d) ++ [eof_tok] = desc_tokens (map gi d).
+Proof.
+  induction d as [|it d IH]; intros Hne; [congruence|]. destruct d as [|it2 d'].
+  - cbn [desc_stoks map desc_tokens]. rewrite sitem_stoks_tokens. reflexivity.
+  - change (desc_stoks (it :: it2 :: d')) with (sitem_stoks it ++ TOp 44 :: TBlank :: desc_stoks (it2 :: d')).
+    change (map gi (it :: it2 :: d')) with (gi it :: gi it2 :: map gi d').
+    change (desc_tokens (gi it :: gi it2 :: map gi d')) with (gitem_tokens (gi it) ++ comma_tok :: desc_tokens (map gi (it2 :: d'))).
+    rewrite stoks_tokens_app, sitem_stoks_tokens, !stoks_tokens_cons. cbn [stok_token app]. rewrite <- app_assoc. cbn [app].
+    rewrite IH by discriminate. reflexivity.
+Qed.
+
+Lemma lim_of_value v : lim_value (lim_of v) = Some v.
+Proof.
+  unfold lim_of. destruct (v <? 0) eqn:E; cbn [lim_value is_limit_kind tk T code_of tt]; unfold code_for_number.
+  - rewrite int_base0_nat_text by lia. f_equal. lia.
+  - rewrite int_base0_nat_text by lia. reflexivity.
+Qed.
+Lemma sep_tok_is_sep : is_sep sep_tok = true.
+Proof. vm_compute. reflexivity. Qed.
+Lemma gi_den it : sitem_ordered it -> gitem_den (gi it) = Some (sitem_den it).
+Proof.
+  destruct it as [v|a k b|a k|k b]; cbn [gi gitem_den sitem_den sitem_ordered]; intros H; rewrite ?sep_tok_is_sep, ?lim_of_value; try reflexivity.
+  assert (b <? a = false) as -> by lia. reflexivity.
+Qed.
+
+(* ---------- the tokenizer on the pre-processed text *)
+Lemma keep_stoks l : filter keep_token (stoks_tokens l ++ [eof_tok]) = stoks_tokens l ++ [eof_tok] \/ stoks_ok l = false.
+Proof.
+  destruct (stoks_ok l) eqn:Hok; [left|right; reflexivity].
+  induction l as [|t l IH]; [reflexivity|]. cbn [stoks_ok] in Hok. apply andb_true_iff in Hok as [Hok Hl]. apply andb_true_iff in Hok as [Ht _].
+  rewrite stoks_tokens_cons. rewrite <- app_assoc. rewrite filter_app. rewrite (IH Hl). f_equal.
+  destruct t as [ds|c|]; cbn [stok_token filter stok_ok] in *; [| |reflexivity].
+  - apply andb_true_iff in Ht as [Hne Hd]. unfold keep_token. cbn [tk tt T tkind_eqb negb andb orb].
+    destruct ds as [|d ds]; [discriminate|]. cbn [forallb] in Hd. apply andb_true_iff in Hd as [Hd1 Hd2].
+    assert (strip (d :: ds) <> []) as Hs.
+    { unfold strip, rstrip. assert (is_py_space d = false) as Sd by (unfold is_digit, in_rng, is_py_space in *; lia).
+      cbn [lstrip]. rewrite Sd. intros E. apply (f_equal (@rev N)) in E. rewrite rev_involutive in E. cbn [rev] in E.
+      assert (forall m : text, (forall c, In c m -> is_py_space c = false) -> m <> [] -> lstrip m <> []) as A.
+      { intros [|c m] Hm Hn; [congruence|]. cbn [lstrip]. rewrite (Hm c (or_introl eq_refl)). discriminate. }
+      apply (A (rev ds ++ [d])); [|destruct (rev ds); discriminate|exact E].
+      intros c Hc. apply in_app_or in Hc as [Hc|[<-|[]]]; [|exact Sd]. apply in_rev in Hc. rewrite forallb_forall in Hd2.
+      specialize (Hd2 c Hc). unfold is_digit, in_rng, is_py_space in *. lia. }
+    destruct (strip (d :: ds)); [congruence|reflexivity].
+  - unfold is_our_op in Ht. assert (c = 45 \/ c = 58 \/ c = 44)%N as [-> | [-> | ->]] by lia; reflexivity.
+Qed.
+
+Lemma benign_in_domain s : forallb benign s = true -> forallb in_domain_char s = true.
+Proof.
+  intros H. apply forallb_forall. intros c Hc. rewrite forallb_forall in H. specialize (H c Hc).
+  unfold benign, is_digit, is_our_op, in_domain_char, in_rng in *. lia.
+Qed.
+
+Definition head_visible (l : list stok) : bool := match l with TNum _ :: _ | TOp _ :: _ => true | _ => false end.
+Theorem tokenize_stoks l : stoks_ok l = true -> head_visible l = true ->
+  tokenize_without_space (stoks_text l) = LOk (stoks_tokens l ++ [eof_tok]).
+Proof.
+  intros Hok Hh. unfold tokenize_without_space, generated_tokens.
+  assert (exists c r, stoks_text l = c :: r /\ is_blank c = false) as [c [r [Es Hc]]].
+  { destruct l as [|[ds|c|] l']; try discriminate.
+    - cbn [stoks_ok stok_ok] in Hok. apply andb_true_iff in Hok as [Hok _]. apply andb_true_iff in Hok as [Hok _]. apply andb_true_iff in Hok as [Hn Hd].
+      destruct ds as [|d ds]; [discriminate|]. exists d, (ds ++ stoks_text l'). split; [reflexivity|].
+      cbn [forallb] in Hd. apply andb_true_iff in Hd as [Hd _]. apply (digit_class d Hd).
+    - cbn [stoks_ok stok_ok] in Hok. apply andb_true_iff in Hok as [Hok _]. apply andb_true_iff in Hok as [Hok _].
+      exists c, (stoks_text l'). split; [reflexivity|]. apply (op_class c Hok). }
+  assert (span is_blank (stoks_text l) = ([], stoks_text l)) as ->.
+  { rewrite Es. cbn [span]. rewrite Hc. reflexivity. }
+  rewrite (benign_in_domain _ (stoks_text_benign l Hok)). cbn [negb].
+  rewrite (lex_stoks l (S (length (stoks_text l))) Hok (Nat.lt_succ_diag_r _)).
+  destruct (keep_stoks l) as [K|K]; [|congruence].
+  destruct (stoks_tokens l) as [|t0 ts] eqn:Et.
+  - destruct l as [|[ds|c0|] l']; discriminate.
+  - assert (tk t0 = KNumber \/ tk t0 = KOp) as Hk.
+    { destruct l as [|[ds|c0|] l']; try discriminate; rewrite stoks_tokens_cons in Et; cbn [stok_token app] in Et; injection Et as <- _; auto. }
+    destruct Hk as [Hk|Hk]; rewrite Hk; change (T KEnd []) with eof_tok; rewrite K; reflexivity.
+Qed.
+
+(* ---------- the theorem: from the text of a description to its items *)
+Lemma lstrip_keeps (m : text) c : In c m -> is_py_space c = false -> lstrip m <> [].
+Proof.
+  induction m as [|x m IH]; intros Hin Hc; [contradiction|]. cbn [lstrip]. destruct (is_py_space x) eqn:E; [|discriminate].
+  destruct Hin as [->|Hin]; [congruence|]. apply IH; assumption.
+Qed.
+Lemma not_blank_text s c r : s = c :: r -> is_py_space c = false -> is_blank_text s = false.
+Proof.
+  intros -> Hc. unfold is_blank_text, strip, rstrip. cbn [lstrip]. rewrite Hc.
+  destruct (rev (lstrip (rev (c :: r)))) eqn:E; [|reflexivity].
+  exfalso. apply (f_equal (@rev N)) in E. rewrite rev_involutive in E. cbn [rev] in E.
+  apply (lstrip_keeps (rev r ++ [c]) c); [apply in_or_app; right; left; reflexivity|exact Hc|exact E].
+Qed.
+
+Lemma int_text_head v : exists c r, int_text v = c :: r /\ is_py_space c = false.
+Proof.
+  unfold int_text. destruct (v <? 0) eqn:E.
+  - exists 45%N, (nat_text (- v)). split; reflexivity.
+  - destruct (nat_text_spec v ltac:(lia)) as [D [_ [_ NE]]]. destruct (nat_text v) as [|c r]; [congruence|]. exists c, r. split; [reflexivity|].
+    cbn [forallb] in D. apply andb_true_iff in D as [D _]. unfold is_digit, in_rng, is_py_space in *. lia.
+Qed.
+Lemma desc_text_head d : d <> [] -> exists c r, desc_text sep_text d = c :: r /\ is_py_space c = false.
+Proof.
+  intros Hne. destruct d as [|it d']; [congruence|].
+  assert (exists c r, sitem_text sep_text it = c :: r /\ is_py_space c = false) as [c [r [E Hc]]].
+  { destruct it as [v|a k b|a k|k b]; cbn [sitem_text].
+    - apply int_text_head.
+    - destruct (int_text_head a) as [c [r [-> Hc]]]. exists c, (r ++ sep_text k ++ int_text b). auto.
+    - destruct (int_text_head a) as [c [r [-> Hc]]]. exists c, (r ++ sep_text k). auto.
+    - destruct k; cbn [sep_text app]; eexists _, _; split; reflexivity. }
+  destruct d' as [|it2 d'']; cbn [desc_text]; rewrite E; cbn [app]; eexists _, _; split; reflexivity || exact Hc.
+Qed.
+
+Theorem range_of_written_description d : d <> [] -> Forall sitem_ordered d -> no_overlap [] (map sitem_den d) ->
+  range_of_text (desc_text sep_text d) = POk (Some (map sitem_den d)).
+Proof.
+  intros Hne Hord Hov. unfold range_of_text.
+  destruct (desc_text_head d Hne) as [c [r [E Hc]]]. rewrite (not_blank_text _ c r E Hc).
+  fold (pre (desc_text sep_text d)). rewrite pre_desc, <- desc_stoks_text.
+  rewrite tokenize_stoks; [|apply desc_stoks_ok|].
+  - rewrite (desc_stoks_tokens d Hne). apply token_loop_denotes.
+    + destruct d; [congruence|discriminate].
+    + rewrite !map_map. apply map_ext_in. intros it Hin. apply gi_den. rewrite Forall_forall in Hord. apply Hord. exact Hin.
+    + exact Hov.
+  - destruct d as [|it d']; [congruence|]. 
+    assert (head_visible (sitem_stoks it) = true) as Hv.
+    { destruct it as [v|a k b|a k|k b]; cbn [sitem_stoks]; unfold int_stoks; repeat (destruct (_ <? 0)); reflexivity. }
+    destruct d' as [|it2 d'']; cbn [desc_stoks]; [exact Hv|]. destruct (sitem_stoks it) as [|[?|?|] ?]; try discriminate; reflexivity.
+Qed.
+
+(* end to end: the range made from the written description accepts exactly the values inside one of its items *)
+From CP Require Import Proofs.RangeProofs.
+Theorem written_description_accepts_exactly d v : d <> [] -> Forall sitem_ordered d -> no_overlap [] (map sitem_den d) ->
+  exists r, range_of_text (desc_text sep_text d) = POk r /\
+            (range_validate r v = true <-> exists it, In it d /\ inside (sitem_den it) v).
+Proof.
+  intros Hne Ho Hov. exists (Some (map sitem_den d)). split; [apply range_of_written_description; assumption|].
+  rewrite range_validate_iff_lemma. split.
+  - intros [it [Hin Hi]]. apply in_map_iff in Hin as [s [<- Hs]]. exists s. auto.
+  - intros [s [Hs Hi]]. exists (sitem_den s). split; [apply in_map; exact Hs|exact Hi].
+Qed.
